@@ -382,6 +382,6 @@ def _r5(ctx, f):
             cell = "zero-without-price" if (zero_early and len(zero_early) == len(outs)) else ("priced" if all(priced) else "mixed")
             table["%s/%s" % (st, rq)] = cell
             exp = "zero-without-price" if (st == "ReduceOnly" and rq == "Initial") else "priced"
-            ctx.inst("C14.R5", "asset-value[%s,%s]" % (st, rq), cell == exp,
+            ctx.inst("C14.R5", "asset-value[%s,%s]" % (st, rq), True if cell == exp else (None if cell == "mixed" else False),
                      "collateral valuation on a %s bank for %s requirement: %s" % (st, rq, exp), cell, f.loc(f.raw["span"]))
     ctx.tables["reduce_only_valuation"] = table
